@@ -153,7 +153,8 @@ def run_property(prop, tier='quick', repo='/repo', quiet=False, write_evidence=T
             return 2, []
         info = dict(info)
         # what the normalisation against the reference function table did on this tree (identity on the reference tree)
-        info['normalisation'] = {'renamed_back': dict(prog.renamed), 'fields_renamed_back': [list(x) for x in prog.renamed_fields], 'helpers_inlined': [{'helper': h, 'into': c} for h, c in prog.inlined]}
+        info['normalisation'] = {'renamed_back': dict(prog.renamed), 'fields_renamed_back': [list(x) for x in prog.renamed_fields], 'helpers_inlined': [{'helper': h, 'into': c} for h, c in prog.inlined],
+                                 'combinators_rewritten': [{'combinator': k, 'in': c} for k, c in getattr(prog, 'desugared', [])]}
         infos.append(info)
         cx = run_rules(mod, prog, profile, only_rule)
         all_records.extend(cx.records)
